@@ -109,9 +109,14 @@ func (x *Exec) runThreads(fn *ssa.Function) {
 			sc.switches++
 		}
 		x.cur = pick
+		wasBlocked := pick.blocked != nil
 		pick.blocked = nil
 		if len(x.schedTrace) < 400 {
-			x.schedTrace = append(x.schedTrace, fmt.Sprintf("T%d:%s", pick.id, pick.state))
+			st := pick.state
+			if wasBlocked {
+				st += "/resume"
+			}
+			x.schedTrace = append(x.schedTrace, fmt.Sprintf("T%d:%s", pick.id, st))
 		}
 		pick.state = "running"
 		pick.resume <- struct{}{}
